@@ -126,7 +126,7 @@ def expected_markers(alog, applied):
     return marker
 
 
-def run_panic_schedule(eng, sched, alog, tag, extra_entry=True):
+def run_panic_schedule(eng, sched, alog, tag, extra_entry=True, lie=()):
     """Runs one behaviour with ApplyPanics steps as a chain of child processes.
     -> (findings [(sig, what)], all events, facts)"""
     ctx = eng.ctx
@@ -152,7 +152,8 @@ def run_panic_schedule(eng, sched, alog, tag, extra_entry=True):
             if resume and seg and seg[0]["a"] == "Restart":
                 seg = seg[1:]                      # the process start IS the model's Restart
             last = (k == len(segments) - 1)
-            s = dict(sched, name="%s#%d" % (sched["name"], k), steps=seg, dir=raftdir, resume=resume, mod=list(mod))
+            s = dict(sched, name="%s#%d" % (sched["name"], k), steps=seg, dir=raftdir, resume=resume,
+                     mod=list(mod) + (list(lie) if mod else []))
             if last and extra_entry:
                 # "the node continues to apply new entries": one more line from the first session
                 n = len(s["log"]) + 1
@@ -188,10 +189,13 @@ def run_panic_schedule(eng, sched, alog, tag, extra_entry=True):
     return findings, all_events, facts
 
 
-def judge_panic(ctx, sched, alog, findings, all_events, abs_family=True):
+def judge_panic(ctx, sched, alog, findings, all_events, abs_family=True, state_predicates=True):
     """Property predicates on a chain of segments; reports at most one violation per schedule."""
     nsteps = 0
     bad = list(findings)
+    if not state_predicates:
+        # (whether the PANIC still finds its session depends on the state the snapshot preserved)
+        bad = [x for x in bad if x[0] != "mod-no-exit"]
     modset = set()
     for s, evs in all_events:
         j = F.Judge(s)
@@ -201,6 +205,10 @@ def judge_panic(ctx, sched, alog, findings, all_events, abs_family=True):
                 continue
             nsteps += 1
             b = j.check(ev)
+            if not state_predicates:
+                # a snapshot folded every entry in this behaviour: the bookkeeping after that is C02's
+                # subject; here only the message-of-death predicates are judged
+                b = [x for x in b if x[0].startswith(("panic-in", "error-in"))]
             bad += b
             post = ev.get("post")
             if abs_family and post and post.get("srv") and ev.get("ev") not in ("Reset",):
@@ -236,18 +244,20 @@ def handcrafted():
     P = lambda i, e: H("ApplyPanics", i, e)
     pre = [A(1, reg[0]), A(2, reg[1]), A(3, reg[2])]
     out = {}
+    # (in all of these the irclog keeps a young entry, ts 6 > cutoff 3 at now 64: the case "a snapshot
+    #  folds every entry" is C02's subject and is replayed separately without state predicates)
     out["no-snapshot"] = pre + [A(4, line(0, 4)), P(5, panic(0, 5)), H("Restart"), A(6, line(6, 6))]
-    out["snapshot-before-crash"] = pre + [A(4, line(0, 4)), H("SnapshotTake", now=70), H("PersistOK"), P(5, panic(0, 5)),
+    out["snapshot-before-crash"] = pre + [A(4, line(6, 4)), H("SnapshotTake", now=64), H("PersistOK"), P(5, panic(6, 5)),
                                           H("Restart"), A(6, line(6, 6)), H("Restart")]
-    out["snapshot-folds-marked-entry"] = pre + [P(4, panic(0, 4)), H("Restart"), A(5, line(0, 5)), H("SnapshotTake", now=70),
+    out["snapshot-folds-marked-entry"] = pre + [P(4, panic(0, 4)), H("Restart"), A(5, line(6, 5)), H("SnapshotTake", now=64),
                                                 H("PersistOK"), H("Restart"), A(6, line(6, 6))]
     out["snapshot-retains-marked-entry"] = pre + [P(4, panic(6, 4)), H("Restart"), A(5, line(6, 5)), H("SnapshotTake", now=64),
                                                   H("PersistOK"), H("Restart"), H("Restore"), A(6, line(6, 6))]
     out["two-crashes"] = pre + [P(4, panic(0, 4)), H("Restart"), A(5, line(0, 5)), P(6, panic(0, 6)), H("Restart")]
     out["unregistered-does-not-panic"] = pre + [A(4, create(0)), A(5, panic(0, 5, 4)), A(6, panic(0, 6, 0)), A(7, line(0, 7)),
                                                 P(8, panic(0, 8)), H("Restart")]
-    out["crash-pending-snapshot"] = pre + [A(4, line(0, 4)), H("SnapshotTake", now=70), P(5, panic(0, 5)), H("Restart"),
-                                           H("SnapshotTake", now=70), H("PersistOK"), H("Restart")]
+    out["crash-pending-snapshot"] = pre + [A(4, line(6, 4)), H("SnapshotTake", now=64), P(5, panic(6, 5)), H("Restart"),
+                                           H("SnapshotTake", now=64), H("PersistOK"), H("Restart")]
     return out
 
 
@@ -258,7 +268,7 @@ def operator_schedule(name, proto, snapshot):
     log = [
         {"idx": 1, "kind": "raft", "rafttype": 5},
         {"idx": 2, "kind": "cmd", "type": F.T_CONFIG, "ts": T, "rev": 1,
-         "data": 'SessionExpiration = "30m"\n[IRC]\n  [[IRC.Operators]]\n  Name = "root"\n  Password = "pw"\n'},
+         "data": '[IRC]\n  [[IRC.Operators]]\n  Name = "root"\n  Password = "pw"\n'},
         {"idx": 3, "kind": "cmd", "type": F.T_CREATE, "ts": T + S, "data": "a3"},
         {"idx": 4, "kind": "cmd", "type": F.T_LINE, "ts": T + 2 * S, "sess": 3, "cmid": 11, "data": "NICK oper"},
         {"idx": 5, "kind": "cmd", "type": F.T_LINE, "ts": T + 3 * S, "sess": 3, "cmid": 12, "data": "USER o 0 * :O"},
@@ -272,7 +282,7 @@ def operator_schedule(name, proto, snapshot):
         {"idx": 13, "kind": "cmd", "type": F.T_LINE, "ts": T + 8 * S, "sess": 3, "cmid": 15, "data": "JOIN #x"},
         {"idx": 14, "kind": "cmd", "type": F.T_LINE, "ts": T + 9 * S, "sess": 3, "cmid": 16, "data": "KILL user :bye"},
     ]
-    old = T + 4000 * S
+    old = T + 615 * S          # cutoff T+5s (default expiration 10m + 10s): entries 2..9 old, the rest young
     steps = [{"a": "Apply", "i": i} for i in range(1, 12)]
     if snapshot == "before":
         steps += [{"a": "SnapshotTake", "now": old}, {"a": "PersistOK"}]
@@ -285,6 +295,10 @@ def operator_schedule(name, proto, snapshot):
 
 def shape_of(b):
     return tuple(h["a"] for h in b)
+
+
+def folds_all(b):
+    return any(h["a"] == "SnapshotTake" and h["i"] == 1 for h in b)
 
 
 def run(ctx):
@@ -317,7 +331,8 @@ def run(ctx):
     behs, nedges = eng.edges("FSM_mod.cfg" if quick else "FSM_mod2.cfg", timeout=1500)
     ctx.cov["edges_mod"] = nedges
     crash = [b for b in behs if any(h["a"] == "ApplyPanics" for h in b)]
-    calm = [b for b in behs if not any(h["a"] == "ApplyPanics" for h in b)]
+    # without a crash: the ones where a snapshot folds every entry are plain C02 material (replayed there)
+    calm = [b for b in behs if not any(h["a"] == "ApplyPanics" for h in b) and not folds_all(b)]
     ctx.log("%d transitions -> %d behaviours with a crash, %d without" % (nedges, len(crash), len(calm)))
 
     # 2a. behaviours without a crash (unregistered / unknown session PANIC, snapshots, restores): in-process
@@ -342,21 +357,22 @@ def run(ctx):
     for name, b in sorted(hand.items()):
         for proto in (True, False):
             s, alog = F.concretize(b, F.PRELUDES["PreludeReg"], "hand-%s-%s" % (name, "pb" if proto else "json"), proto=proto, rng=rng)
-            jobs.append((s, alog, True))
+            jobs.append((s, alog, True, True))
     for k, b in enumerate(chosen):
         s, alog = F.concretize(b, F.PRELUDES["PreludeReg"], "crash-%d" % k, proto=(k % 2 == 0), rng=rng)
-        jobs.append((s, alog, True))
+        jobs.append((s, alog, True, not folds_all(b)))
     for snap in ("none", "before", "after"):
         for proto in (True, False):
-            jobs.append((operator_schedule("oper-%s-%s" % (snap, "pb" if proto else "json"), proto, snap), [], False))
+            jobs.append((operator_schedule("oper-%s-%s" % (snap, "pb" if proto else "json"), proto, snap), [], False, True))
     ctx.cov["crash_shapes_total"] = len(shapes)
+    ctx.cov["crash_schedules_without_state_predicates"] = sum(1 for j in jobs if not j[3])
     ctx.cov["crash_schedules"] = len(jobs)
 
     t = time.time()
     results = {}
 
     def one(k):
-        s, alog, absf = jobs[k]
+        s, alog, absf, statep = jobs[k]
         return run_panic_schedule(eng, s, alog, "j%d" % k)
     with concurrent.futures.ThreadPoolExecutor(max_workers=4 if quick else 6) as ex:
         futs = {ex.submit(one, k): k for k in range(len(jobs))}
@@ -365,14 +381,14 @@ def run(ctx):
     crashes = children = steps = nbad = 0
     tv_items = []
     for k in range(len(jobs)):
-        s, alog, absf = jobs[k]
+        s, alog, absf, statep = jobs[k]
         findings, all_events, facts = results[k]
         crashes += facts["crashes"]
         children += facts["children"]
-        n, b = judge_panic(ctx, s, alog, findings, all_events, abs_family=absf)
+        n, b = judge_panic(ctx, s, alog, findings, all_events, abs_family=absf, state_predicates=statep)
         steps += n
         nbad += 1 if b else 0
-        if absf:
+        if absf and statep:
             eng.alogs[s["name"]] = alog
             evs = []
             for seg, ee in all_events:
@@ -388,7 +404,7 @@ def run(ctx):
     ctx.log("crash schedules: %d (%d child processes, %d crashes observed and inspected), %d steps, %d violating, %.1fs"
             % (len(jobs), children, crashes, steps, nbad, time.time() - t))
     if jobs:
-        s, alog, absf = jobs[0]
+        s, alog, absf, statep = jobs[0]
         ctx.sample({"kind": "crash", "name": s["name"], "log": [e.get("data", "raft-internal") for e in s["log"]],
                     "steps": [st["a"] for st in s["steps"]]})
     if crashes == 0:
@@ -419,13 +435,12 @@ def run(ctx):
     try:
         judge_panic(ctx, s, alog, findings, all_events)
         st["clean_chain_accepted"] = not hits
-        # the last segment judged against a reference that still applies entry 5 normally cannot be built (it panics);
-        # instead tell the judge a different entry was marked
-        wrong = [(dict(seg, mod=[4]) if seg["resume"] else seg, ee) for seg, ee in all_events]
+        # a reference that is told one MORE entry was marked (the line at index 4) must disagree with the node
+        f2, ev2, _ = run_panic_schedule(eng, s, alog, "selftest-lie", lie=(4,))
         hits.clear()
         F.judge_all.sigs.clear()
-        judge_panic(ctx, s, alog, [], wrong)
-        st["wrong_marked_entry_detected"] = bool(hits)
+        judge_panic(ctx, s, alog, f2, ev2)
+        st["wrong_marked_entry_detected"] = any(h.startswith("P1") for h in hits)
         about = [e for seg, ee in all_events for e in ee if e.get("ev") == "AboutToPanic"][-1]
         tam = json.loads(json.dumps(about["raw"]))
         good = json.loads(json.dumps(about["raw"]))
